@@ -70,7 +70,7 @@ package pogreb
 //@ func (idx *index) close() (err error) [C02,C03,C09]
 //@   requires idx: idxFiles(idx) && idx.opts != nil && idx.opts.FileSystem != nil
 //@   requires dir: dirInjective(idx.opts.FileSystem) && dirFid[idx.opts.FileSystem]["main.pix"] == fidOf[idx.main.File] && dirFid[idx.opts.FileSystem]["overflow.pix"] == fidOf[idx.overflow.File]
-//@   ensures [C03] closed: err == nil ==> !hOpen[idx.main.File] && !hOpen[idx.overflow.File] && dirFid[idx.opts.FileSystem]["index.pmt"] != 0
+//@   ensures [C02,C03] closed: err == nil ==> !hOpen[idx.main.File] && !hOpen[idx.overflow.File] && dirFid[idx.opts.FileSystem]["index.pmt"] != 0
 //@   ensures [C09] durable: err == nil ==> durableName(idx.opts.FileSystem, "index.pmt") && durableName(idx.opts.FileSystem, "main.pix") && durableName(idx.opts.FileSystem, "overflow.pix")
 //@   ensures onlyfresh: forall h ref :: hOpen[h] && !old(hOpen[h]) ==> fresh(h)
 //@   ensures whichfile: err == nil ==> dirFid[idx.opts.FileSystem]["index.pmt"] == old(dirFid[idx.opts.FileSystem]["index.pmt"]) || (old(dirFid[idx.opts.FileSystem]["index.pmt"]) == 0 && (forall n string :: n != "index.pmt" ==> old(dirFid[idx.opts.FileSystem][n]) != dirFid[idx.opts.FileSystem]["index.pmt"]))
@@ -94,7 +94,7 @@ package pogreb
 
 //@ func (dl *datalog) close() (err error) [C02,C03,C09]
 //@   requires inv: dlInv(dl) && dirInjective(dl.opts.FileSystem)
-//@   ensures [C03] closed: err == nil ==> forall i int :: 0 <= i && i < 32767 ==> segClosed(dl, i)
+//@   ensures [C02,C03] closed: err == nil ==> forall i int :: 0 <= i && i < 32767 ==> segClosed(dl, i)
 //@   ensures [C09] durable: err == nil ==> forall i int :: 0 <= i && i < 32767 ==> segDurableOnDisk(dl, i)
 //@   ensures names: err == nil ==> forall n string :: !segMetaName(dl, n) ==> dirFid[dl.opts.FileSystem][n] == old(dirFid[dl.opts.FileSystem][n])
 //@   ensures otherfiles: err == nil ==> forall n string :: !segMetaName(dl, n) && !segFileName(dl, n) && old(dirFid[dl.opts.FileSystem][n]) != 0 ==> fLen[dirFid[dl.opts.FileSystem][n]] == old(fLen[dirFid[dl.opts.FileSystem][n]]) && fDur[dirFid[dl.opts.FileSystem][n]] == old(fDur[dirFid[dl.opts.FileSystem][n]]) && fData[dirFid[dl.opts.FileSystem][n]] == old(fData[dirFid[dl.opts.FileSystem][n]])
@@ -131,6 +131,6 @@ package pogreb
 //@   ensures unlocked: lockSt[fieldaddr(db, mu)] == 0
 //@   at call close@1: hint after-dbmeta: durableName(db.opts.FileSystem, "db.pmt") && dirInjective(db.opts.FileSystem) && dbFull(db) && idxInDir(db)
 //@   at call close@2: hint after-log: durableName(db.opts.FileSystem, "db.pmt") && dirInjective(db.opts.FileSystem) && idxFiles(db.index) && idxInDir(db) && (forall i int :: 0 <= i && i < 32767 ==> segClosed(db.datalog, i) && segDurableOnDisk(db.datalog, i))
-//@   at call Unlock@2: assert [C03] closed-first: !hOpen[db.index.main.File] && !hOpen[db.index.overflow.File] && dirFid[db.opts.FileSystem]["index.pmt"] != 0 && dirFid[db.opts.FileSystem]["db.pmt"] != 0 && forall i int :: 0 <= i && i < 32767 ==> segClosed(db.datalog, i)
+//@   at call Unlock@2: assert [C02,C03] closed-first: !hOpen[db.index.main.File] && !hOpen[db.index.overflow.File] && dirFid[db.opts.FileSystem]["index.pmt"] != 0 && dirFid[db.opts.FileSystem]["db.pmt"] != 0 && forall i int :: 0 <= i && i < 32767 ==> segClosed(db.datalog, i)
 //@   at call Unlock@2: assert [C09] durable-first: durableName(db.opts.FileSystem, "db.pmt") && durableName(db.opts.FileSystem, "index.pmt") && durableName(db.opts.FileSystem, "main.pix") && durableName(db.opts.FileSystem, "overflow.pix") && forall i int :: 0 <= i && i < 32767 ==> segDurableOnDisk(db.datalog, i)
 //@   modifies *
